@@ -886,7 +886,10 @@ def create_substitution_model(id_, model, arg):
             rates[CONSTRAINT.SIMPLEX.value] = True
             mapping = ((6, 0, 1, 2), (0, 6, 3, 4), (1, 3, 6, 5), (2, 4, 5, 6))
             if alignment is not None:
-                rel_rates = torch.tensor(calculate_substitutions(alignment, mapping))
+                # one pseudo-count per substitution type: a type that is not observed
+                # in the alignment would put the starting point on the boundary of the
+                # simplex (infinite unconstrained value, nan Jacobian)
+                rel_rates = torch.tensor(calculate_substitutions(alignment, mapping)) + 1
                 rates["tensor"] = (rel_rates[:-1] / rel_rates[:-1].sum()).tolist()
                 # the six values are spelled out: not a constant to expand
                 del rates["full"]
